@@ -273,6 +273,16 @@ func (w *memWatch) sample() {
 	if h <= w.limit {
 		return
 	}
+	if h > 2*w.limit+memRunaway {
+		// With GC percent 50 uncollected garbage cannot account for more
+		// than about half of this; a forced collection may take very long
+		// on a starved machine while the walk keeps allocating, so such a
+		// sample counts as it is.
+		if h > w.confirmed.Load() {
+			w.confirmed.Store(h)
+		}
+		return
+	}
 	runtime.GC()
 	h = heapBytes()
 	if h > w.limit && h > w.confirmed.Load() {
